@@ -31,8 +31,10 @@ def check(ctx):
 MUTANTS = [
     ("double-call-only-called-method-nonexclusive", M, "ancestor.nonexclusive for ancestor in new_ancestors if ancestor in old_ancestors", "ancestor.nonexclusive for ancestor in new_ancestors[:1] if ancestor in old_ancestors"),
     ("double-call-nonexclusive-in-one-chain", M, "ancestor.nonexclusive for ancestor in new_ancestors if ancestor in old_ancestors", "ancestor.nonexclusive for ancestor in new_ancestors"),
-    ("nonexclusive-callers-independent", M, "                if k1 == 0 and k2 == 0 and elem.nonexclusive:\n                    continue  # callers of a nonexclusive method can run as one transaction\n", ""),
-    ("exemption-for-every-group-pair", M, "if k1 == 0 and k2 == 0 and elem.nonexclusive:", "if elem.nonexclusive:"),
+    ("nonexclusive-callers-independent", M, "table = weak_independents if k1 == 0 and k2 == 0 and elem.nonexclusive else independents", "table = independents"),
+    ("nonexclusive-callers-glued", M, "                    or (tr1 in weak_independents[tr2] and frozenset({tr1, tr2}) not in simultaneous)\n", ""),
+    ("weak-independence-even-when-required", M, "(tr1 in weak_independents[tr2] and frozenset({tr1, tr2}) not in simultaneous)", "(tr1 in weak_independents[tr2])"),
+    ("exemption-for-every-group-pair", M, "weak_independents if k1 == 0 and k2 == 0 and elem.nonexclusive else", "weak_independents if elem.nonexclusive else"),
     ("double-call-only-direct", M, "                        for old_ancestors, old_call_path in call_sights[method]:\n", "                        for old_ancestors, old_call_path in call_sights[method][:1]:\n"),
     ("double-call-rejects-nonexclusive", M, "if not through_nonexclusive and not call_paths_exclusive(old_call_path, new_call_path):", "if not call_paths_exclusive(old_call_path, new_call_path):"),
     ("double-call-rejects-alternatives", M, "if not through_nonexclusive and not call_paths_exclusive(old_call_path, new_call_path):", "if not through_nonexclusive:"),
